@@ -6,3 +6,4 @@
 pub(crate) fn stub_format(_: core::fmt::Arguments<'_>) -> String { String::new() }
 
 mod tables;
+mod engine;
